@@ -1,16 +1,16 @@
 #!/bin/bash
 # regression sweep: every kept seeded change against its check, on scratch copies (neither /repo nor the evidence of /verif is touched
-# when run from a snapshot):   tools/seed_sweep.sh [base-repo] [jobs]
+# when run from a snapshot):   tools/seed_sweep.sh [base-repo] [jobs] [seed]
 # prints one line per change: "<id> rc=<exit code of ./check Cxx --tier quick> violations=<n>"; a kept change must give rc=1
-BASE=${1:-/repo}; JOBS=${2:-3}; HERE=$(cd "$(dirname "$0")/.." && pwd)
+BASE=${1:-/repo}; JOBS=${2:-3}; SEED=${3:-}; HERE=$(cd "$(dirname "$0")/.." && pwd)
 one() {
   d=$1; id=$(basename $d); P=${id:0:3}
   SCR=$(mktemp -d /tmp/sweep_XXXXXX)
   cp -r $BASE/okdmr $SCR/
   if ! (cd $SCR && patch -p1 -s < $d/patch.diff) >/dev/null 2>&1; then echo "$id rc=NOAPPLY"; rm -rf $SCR; return; fi
-  out=$(cd $HERE && VERIF_REPO=$SCR ./check $P --tier quick 2>&1); rc=$?
+  out=$(cd $HERE && VERIF_REPO=$SCR ./check $P --tier quick ${SEED:+--seed $SEED} 2>&1); rc=$?
   echo "$id rc=$rc $(echo "$out" | grep -o 'violations=[0-9]*' | tail -1)"
   rm -rf $SCR
 }
-export -f one; export BASE HERE
+export -f one; export BASE HERE SEED
 ls -d $HERE/seeded/*/ | xargs -P $JOBS -I{} bash -c 'one {}'
